@@ -1,0 +1,69 @@
+//go:build verif
+
+// Contracts for the deductive checker in /verif (govc). Comment-only; ignored without the
+// "verif" build tag. kv.* / it.* are the observer ghosts of store/types: a tracing wrapper makes exactly the
+// delegate call with exactly the arguments it was given and passes the result through; the trace record goes
+// to the io.Writer (assumed not to touch any store). Serialisation failures panic (may_panic).
+
+package tracekv
+
+//@ func writeOperation(w io.Writer, op operation, tc types.TraceContext, key, value []byte)
+//@   props C16
+//@   may_panic
+//@   ensures true
+
+//@ func (tkv *Store) Get(key []byte) (value []byte)
+//@   props C16
+//@   may_panic
+//@   modifies kv.*
+//@   ensures kv.calls == old(kv.calls) + 1 && kv.op == 1 && kv.recv == tkv.parent && kv.key == key && value == kv.ret
+
+//@ func (tkv *Store) Set(key []byte, value []byte)
+//@   props C16
+//@   may_panic
+//@   modifies kv.*
+//@   ensures kv.calls == old(kv.calls) + 1 && kv.op == 3 && kv.recv == tkv.parent && kv.key == key && kv.val == value
+
+//@ func (tkv *Store) Delete(key []byte)
+//@   props C16
+//@   may_panic
+//@   modifies kv.*
+//@   ensures kv.calls == old(kv.calls) + 1 && kv.op == 4 && kv.recv == tkv.parent && kv.key == key
+
+//@ func (tkv *Store) Has(key []byte) (r bool)
+//@   props C16
+//@   modifies kv.*
+//@   ensures kv.calls == old(kv.calls) + 1 && kv.op == 2 && kv.recv == tkv.parent && kv.key == key && r == kv.retb
+
+//@ func (tkv *Store) iterator(start, end []byte, ascending bool) (r types.Iterator)
+//@   props C16
+//@   modifies kv.*
+//@   ensures kv.calls == old(kv.calls) + 1 && kv.op == ite(ascending, 5, 6) && kv.recv == tkv.parent && kv.key == start && kv.val == end
+//@   ensures dyntype(r) == typeid("*store/tracekv.traceIterator") && unbox(r, "*store/tracekv.traceIterator").parent == kv.iter
+
+//@ func (ti *traceIterator) Valid() (r bool)
+//@   props C16
+//@   modifies it.*
+//@   ensures it.calls == old(it.calls) + 1 && it.op == 1 && it.recv == ti.parent && r == it.retb
+
+//@ func (ti *traceIterator) Next()
+//@   props C16
+//@   modifies it.*
+//@   ensures it.calls == old(it.calls) + 1 && it.op == 2 && it.recv == ti.parent
+
+//@ func (ti *traceIterator) Key() (r []byte)
+//@   props C16
+//@   may_panic
+//@   modifies it.*
+//@   ensures it.calls == old(it.calls) + 1 && it.op == 3 && it.recv == ti.parent && r == it.ret
+
+//@ func (ti *traceIterator) Value() (r []byte)
+//@   props C16
+//@   may_panic
+//@   modifies it.*
+//@   ensures it.calls == old(it.calls) + 1 && it.op == 4 && it.recv == ti.parent && r == it.ret
+
+//@ func (ti *traceIterator) Close()
+//@   props C16
+//@   modifies it.*
+//@   ensures it.calls == old(it.calls) + 1 && it.op == 5 && it.recv == ti.parent
